@@ -5,7 +5,29 @@ import vf
 
 CONST = dict(NCR=3, NProps=2, NOwners=2, NVoters=2, MemberCount=3, AgreeCount=2, VotingPeriod=8, ClaimPeriod=1,
              DutyPeriod=16, Lockup=2, PropCRVote=1, PropPubVote=1, VotingStart=1, CommitteeStart=9, MaxTracking=4,
-             RejectThreshold=2)
+             RejectThreshold=2, WithdrawV1Height=0)
+
+# Constant sets besides the default one (each is replayed by its own driver run: the driver's chain parameters are
+# the spec's constants).
+#   h2      two seats for three candidates (somebody is NOT elected: processCurrentCandidates has work to do, a canceled
+#           candidate can coexist with a successful election); DepositLockupBlocks 1, so that in the second election
+#           (candidates active from 21, voting ends at 24) a candidate can unregister at lockup distance 2, 1, 0 from the
+#           end of the voting period without hitting its activation block (an UnregisterCR in the block that activates
+#           the candidate is undone by the activation); a long council review period: the proposals of the "handover"
+#           start states are decided in the blocks where the voting period ends (24) and the committee changes (25)
+#   legacy  CRCProposalWithdrawPayloadV1Height = 16: withdrawals of blocks 14, 15 carry payload version 0 (they spend
+#           the expenses address themselves), from 16 on version 1 (order + CRCProposalRealWithdraw)
+VARIANTS = {
+    "": {},
+    "h2": dict(MemberCount=2, AgreeCount=2, PropCRVote=12, PropPubVote=1, Lockup=1),
+    "legacy": dict(WithdrawV1Height=16),
+}
+
+
+def consts(variant=""):
+    d = dict(CONST)
+    d.update(VARIANTS[variant])
+    return d
 
 ALL_KINDS = ["RegisterCR", "UpdateCR", "UnregisterCR", "VoteCR", "Impeach", "Reject", "Proposal", "Close", "Review",
              "Tracking", "Withdraw", "RealWithdraw", "Approp", "Claim", "ReturnDeposit"]
@@ -35,6 +57,7 @@ CONSTANTS
   Lockup = %(Lockup)d
   ActivateDuration = 6
   VotingStart = %(VotingStart)d
+  WithdrawV1Height = %(WithdrawV1Height)d
   CommitteeStart = %(CommitteeStart)d
   MaxSession = 3
   BudgetChoices <- MCBudgets
@@ -47,13 +70,14 @@ CONSTANTS
   RollDepth = %(rolldepth)d
   DupRule = %(dup)s
 VIEW view
-INVARIANTS TypeOK HistConsistent VotesSane MembersSane %(inv)s
+INVARIANTS TypeOK HistConsistent VotesSane MembersSane %(dep)s %(inv)s
 %(props)s
 %(emit)s
 CHECK_DEADLOCK FALSE
 """
 
-C29_INV = "C29PaidWithinApproved C29StagePaidOnce C29WithdrawnWasWithdrawable C29CommittedWithinAvailable"
+C29_INV = ("C29PaidWithinApproved C29StagePaidOnce C29WithdrawnWasWithdrawable C29CommittedWithinAvailable "
+           "C29PayableWithinWithdrawn")
 
 
 def dup_rule_expected():
@@ -64,12 +88,13 @@ def dup_rule_expected():
 
 
 def cfg(scenario, kinds, steps, maxtx=2, rolls=1, rolldepth=3, emit="", inv=C29_INV, dup=None, sim=False,
-        budgets=("<<1, 2, 5>>", "<<2, 1, 1>>", "<<5, 5, 5>>"), patterns=("<<1, 1, 1>>", "<<2, 1, 0>>", "<<0, 1, 1>>")):
-    d = dict(CONST)
+        budgets=("<<1, 2, 5>>", "<<2, 1, 1>>", "<<5, 5, 5>>"), patterns=("<<1, 1, 1>>", "<<2, 1, 0>>", "<<0, 1, 1>>"),
+        variant="", dep="C28CRDepositBalanceButKnown"):
+    d = consts(variant)
     if dup is None:
         dup = dup_rule_expected()
     d.update(kinds=", ".join('"%s"' % k for k in kinds), scenario=scenario, steps=steps, maxtx=maxtx, rolls=rolls,
-             rolldepth=rolldepth, dup="TRUE" if dup else "FALSE", inv=inv, spec="SimSpec" if sim else "Spec",
+             rolldepth=rolldepth, dup="TRUE" if dup else "FALSE", inv=inv, dep=dep, spec="SimSpec" if sim else "Spec",
              props="PROPERTIES CheckpointLossless" if "Checkpoint" in kinds else "",
              emit={"": "", "all": "ACTION_CONSTRAINT Emit", "last": "ACTION_CONSTRAINT EmitLast"}[emit])
     return CFG % d, {"MCCR.tla": MC % dict(budgets=", ".join(budgets), patterns=", ".join(patterns))}
@@ -93,11 +118,11 @@ def preamble_of(res):
     raise vf.Infra("TLC did not print the start-state blocks")
 
 
-def driver_cfg(preambles, dup=None):
-    d = dict(CONST)
+def driver_cfg(preambles, dup=None, variant=""):
+    d = consts(variant)
     d["DupRule"] = dup_rule_expected() if dup is None else dup
     d["Preambles"] = preambles
-    p = os.path.join(vf.scratch(), "crstate-cfg.json")
+    p = os.path.join(vf.scratch(), "crstate-cfg%s.json" % ("-" + variant if variant else ""))
     with open(p, "w") as f:
         json.dump(d, f)
     return p
@@ -120,21 +145,23 @@ class Session:
         t0 = time.time()
         self.binary = binary or vf.go_build("crstate")
         self.phase("go build", t0)
-        self.preambles = {}
+        self.preambles = {}     # variant -> scenario -> start-state blocks
         self.behs = []          # (label, behaviours)
+        self.variant_of = {}    # label -> variant
         self.jobs = []
 
     def phase(self, name, t0):
         self.chk.cov.setdefault("phases_s", []).append([name, round(time.time() - t0, 1)])
 
     def job(self, label, scenario, kinds, steps, emit="", workers=1, simulate=None, limit=None, rolls=1, maxtx=2, timeout=1500,
-            rolldepth=3):
+            rolldepth=3, variant=""):
         self.jobs.append(dict(label=label, scenario=scenario, kinds=kinds, steps=steps, emit=emit, workers=workers,
-                              simulate=simulate, limit=limit, rolls=rolls, maxtx=maxtx, timeout=timeout, rolldepth=rolldepth))
+                              simulate=simulate, limit=limit, rolls=rolls, maxtx=maxtx, timeout=timeout, rolldepth=rolldepth,
+                              variant=variant))
 
     def _run(self, j):
         text, files = cfg(j["scenario"], j["kinds"], j["steps"], maxtx=j["maxtx"], rolls=j["rolls"], emit=j["emit"],
-                          inv=as_is_inv(), rolldepth=j["rolldepth"], sim=bool(j["simulate"]))
+                          inv=as_is_inv(), rolldepth=j["rolldepth"], sim=bool(j["simulate"]), variant=j["variant"])
         name = "cr-%s.cfg" % re.sub(r"[^a-z0-9]+", "-", j["label"].lower())[:48]
         r = vf.tlc("Gov", "MCCR", name, cfg_text=text, files=files, workers=j["workers"], timeout=j["timeout"],
                    jvm=("-Xmx4g", "-XX:ParallelGCThreads=2", "-XX:CICompilerCount=2"),
@@ -154,28 +181,64 @@ class Session:
         for j, r in results:
             vf.tlc_ok(r, j["label"])
             self.chk.add_tlc(r, j["label"])
-            self.preambles[j["scenario"]] = preamble_of(r)
+            self.preambles.setdefault(j["variant"], {})[j["scenario"]] = preamble_of(r)
+            self.variant_of[j["label"]] = j["variant"]
             if j["emit"]:
                 behs, st = fast_behaviours(r, j["limit"], self.rng)
                 st["label"] = j["label"]
+                if j["variant"]:
+                    st["constants"] = VARIANTS[j["variant"]]
                 self.chk.cov.setdefault("extraction", []).append(st)
                 self.behs.append((j["label"], behs))
         self.phase("parse behaviours", t0)
 
-    def replay(self, sweep, shards=8, timeout=3000):
-        cfgp = driver_cfg(self.preambles)
-        allb = []
+    def by_variant(self):
+        """variant -> behaviours (the default constant set first)."""
+        out = {}
         for label, behs in self.behs:
-            allb += behs
-        path = os.path.join(vf.scratch(), "crstate-behaviours.jsonl")
-        vf.write_json_lines(path, allb)
+            out.setdefault(self.variant_of.get(label, ""), []).extend(behs)
+        return {v: out[v] for v in sorted(out)}
+
+    def replay(self, sweep, shards=8, timeout=3000):
+        """Replays every behaviour; one driver run (sharded) per constant set.  Returns the driver configuration of the
+        default constant set and its behaviours (what the self-tests use)."""
+        import concurrent.futures
         t0 = time.time()
-        recs = vf.run_sharded(self.binary, lambda i, n: ["replay", cfgp, path, str(sweep), str(i), str(n)], shards=shards,
-                              timeout=timeout)
+        cfgp0, allb0, recs = driver_cfg(self.preambles.get("", {})), [], []
+        groups = self.by_variant()
+
+        def one(variant):
+            behs = groups[variant]
+            cfgp = cfgp0 if variant == "" else driver_cfg(self.preambles[variant], variant=variant)
+            path = os.path.join(vf.scratch(), "crstate-behaviours%s.jsonl" % ("-" + variant if variant else ""))
+            vf.write_json_lines(path, behs)
+            # the shards of a small constant set's run are fewer (all runs go on at the same time)
+            n = shards if len(behs) > 600 else max(2, shards // 2)
+            got = vf.run_sharded(self.binary, lambda i, k: ["replay", cfgp, path, str(sweep), str(i), str(k)], shards=n,
+                                 timeout=timeout, env={"TMPDIR": tmpdir(variant)})
+            for r in got:
+                if r.get("kind") == "summary":
+                    r["constants"] = variant or "default"
+            return got, len(behs), variant
+
+        def tmpdir(variant):
+            # one per run (run_sharded removes a /dev/shm/verif-* directory when its run ends)
+            base = "/dev/shm/verif-" if os.path.isdir("/dev/shm") else os.path.join(vf.scratch(), "tmp-")
+            return base + os.path.basename(vf.scratch()) + "-" + (variant or "default")
+
+        for v in groups:
+            os.makedirs(tmpdir(v), exist_ok=True)
+        with concurrent.futures.ThreadPoolExecutor(max_workers=max(1, len(groups))) as ex:
+            recs = list(ex.map(one, list(groups)))
+        allb0 = groups.get("", [])
         self.phase("replay", t0)
-        recs = verdict_first(self.chk, recs)
-        self.chk.absorb(recs, "replay of %d behaviours (rollback sweep level %d)" % (len(allb), sweep))
-        return cfgp, allb
+        # a violation anywhere makes the spec/real disagreements of all runs its consequences
+        flat = verdict_first(self.chk, [r for got, _, _ in recs for r in got])
+        keep = set(id(r) for r in flat)
+        for got, n, variant in recs:
+            self.chk.absorb([r for r in got if id(r) in keep], "replay of %d behaviours (rollback sweep level %d%s)" % (
+                n, sweep, ", constant set " + variant if variant else ""))
+        return cfgp0, allb0
 
     def driver_once(self, cfgp, behs, sweep=1, env=None):
         p = os.path.join(vf.scratch(), "crstate-selftest-%d.jsonl" % self.rng.randrange(1 << 30))
@@ -231,13 +294,25 @@ def fast_behaviours(res, limit, rng):
     return [b for _, b in behs], stats
 
 
-def strat(b):
-    """Classes for the stratified sample: the kinds of the last block (or Rollback)."""
-    last = b[-1]
-    if last.get("act") != "Block":
-        return last.get("act", "?")
-    ks = sorted(t.get("k", "?") + (":" + t["x"] if t.get("k") == "Tracking" else "") for t in last["args"]["txs"])
+def _kinds(step):
+    ks = sorted(t.get("k", "?") + (":" + t["x"] if t.get("k") == "Tracking" else "") for t in step["args"]["txs"])
     return "+".join(ks) or "empty"
+
+
+def strat(b):
+    """Classes for the stratified sample: the kinds of the last block; for a behaviour that ends with a rollback the
+    kinds of the blocks it undoes (what is rolled back matters, not that something is); behaviours in which the
+    spec's named deviation (kd) occurred are classes of their own."""
+    last = b[-1]
+    dev = "!dev" if last.get("kd") else ""
+    if last.get("act") == "Block":
+        return _kinds(last) + dev
+    if last.get("act") == "Rollback":
+        t = last["args"].get("t", 0)
+        undone = [x for x in b[:-1] if x.get("act") == "Block" and x["args"].get("h", 0) > t]
+        # (blocks of an earlier, already undone branch are above t as well: good enough for a class name)
+        return "Rollback<" + "|".join(_kinds(x) for x in undone[-2:]) + dev
+    return last.get("act", "?") + dev
 
 
 def verdict_first(chk, recs):
@@ -264,21 +339,46 @@ ASSUMPTIONS = [
     "bounds: 3 CR candidates/members (MemberCount 3, CRAgreementCount 2), 2 proposals with 3 budget stages (imprest, one normal "
     "payment, final) from {<<1,2,5>>, <<2,1,1>>, <<5,5,5>>} units against a stage amount of 80 units (10% cap = 8), 2 owners, "
     "2 stake addresses, <= 2 transactions per block; VotingPeriod 8, CRClaimPeriod 1, DutyPeriod 16, proposal voting periods 1, "
-    "DepositLockupBlocks 2, ActivateDuration 6 (code constant)",
+    "DepositLockupBlocks 2, ActivateDuration 6 (code constant), CRVotingStartHeight 1, CRCommitteeStartHeight 9",
+    "two further constant sets, each replayed by its own driver run: 'h2' = MemberCount 2 / CRAgreementCount 2 for the same 3 "
+    "candidates (one is not elected), DepositLockupBlocks 1, ProposalCRVotingPeriod 12 (the proposals of the 'handover' start "
+    "states are decided in the blocks where the voting period ends, 24, and the committee changes, 25); 'legacy' = "
+    "CRCProposalWithdrawPayloadV1Height 16 (withdrawals of blocks 14, 15 carry payload version 0 and spend the expenses "
+    "address themselves, from 16 on version 1 = order + CRCProposalRealWithdraw; a Rejected tracking below 16 is checked as "
+    "a Progress one).  CRCProposal / review / tracking payloads are always version 01, CRInfo always the DID version",
     "DPoS 2.0 rules from height 0 (Voting payloads, next-committee members, claim period); legacy TransferAsset vote outputs, "
     "illegal/inactive evidence from the DPoS layer (TryUpdateCRMemberInactivity/Illegal, not history based), custom-ID, "
     "side-chain, secretary-general and change-owner proposal types, CRAssetsRectify and ActivateProducer are not modelled",
     "pairs of transactions in one block are explored when they concern the same proposal / CR / voter (where the per-block "
     "rule matters); one Voting transaction per stake address per block",
-    "the real checkers (SpecialContextCheck) are run for CRCProposal, review, tracking, withdraw, real withdraw and "
-    "appropriation; RegisterCR/UpdateCR/UnregisterCR/Voting/ClaimNode/ReturnCRDeposit admission is the spec's transcription "
-    "of their checkers (they need the DPoS state) and is not compared with the real checkers",
-    "penalties are modelled only when they take a whole deposit (no block served / no proposal reviewed); ReturnDeposit is "
-    "explored only while the locked deposit of the model is not negative (the code can drive DepositAmount below zero when "
-    "an impeachment lands in the committee-change block; deposit accounting is another property)",
+    "the real checkers (SpecialContextCheck; for CRCProposalWithdraw also HeightVersionCheck) are run for CRCProposal, review, "
+    "tracking, withdraw, real withdraw and appropriation; RegisterCR/UpdateCR/UnregisterCR/Voting/ClaimNode/ReturnCRDeposit "
+    "admission is the spec's transcription of their checkers (they need the DPoS state) and is not compared with the real "
+    "checkers",
+    "blocks and rollbacks reach the committee as in the node: checkpoint.Manager.OnBlockSaved -> cr Checkpoint.OnBlockSaved -> "
+    "Committee.ProcessBlock, and one checkpoint.Manager.OnRollbackTo(height-1) per disconnected block (every second rollback "
+    "asks the manager for the target in one call: the multi-height loop of Committee.RollbackTo).  Rollback targets include "
+    "CRVotingStartHeight+1, CRVotingStartHeight and CRVotingStartHeight-1 (= 0: Checkpoint.OnRollbackTo resets the committee) "
+    "at heights <= 5 and at the end of every behaviour, followed by processing all blocks again.  Checkpoint files are not "
+    "written (NeedSave off); RestoreTo / OnRollbackSeekTo (not used by the node) are not exercised; CRVotingStartHeight is 1 in "
+    "all runs (no ignored blocks below it)",
+    "CR deposits (C28, CR side): after every block DepositInfo of every CR is checked on the real committee: DepositAmount, "
+    "Penalty, TotalAmount >= 0, GetAvailableDepositAmount = total - locked - penalty and not above what the unspent outputs "
+    "of the deposit address (driver's ledger) hold, TotalAmount = those outputs (keys C28:cr-...).  The model follows the "
+    "code; its one known way to release a deposit twice (member impeached / terminated in the committee-change block) is the "
+    "named deviation ReleasedTwice of CR.tla, reported from the real committee as "
+    "C28:cr-deposit-negative:released-twice-at-committee-change.  Penalties are modelled only when they take a whole "
+    "deposit (no block served / no proposal reviewed); ReturnDeposit is explored only while the locked deposit of the model is "
+    "not negative",
+    "an UnregisterCR in the block that activates the candidate (6th block after registration) is undone by the activation "
+    "(updateVotingCandidatesState reads the pre-block state): the model transcribes that; lockup distances are therefore "
+    "explored in the second election (candidates active from 21)",
     "reject / impeachment votes in units of 2,000,000 ELA against a threshold of 10% of ~33 M ELA circulation (1 unit below, "
     "2 units at the threshold); the circulation formula itself is not modelled",
-    "start states are reached by fixed block sequences (first election, appropriation, one proposal taken to VoterAgreed, "
-    "second voting period) replayed on the real committee; rollbacks of the sweep reach into those blocks, RollbackTo(0) is "
-    "excluded (Committee.RollbackTo(0) does not terminate: uint32 loop bound)",
+    "start states are reached by fixed block sequences (first election, committee seated, appropriation, one proposal taken to "
+    "VoterAgreed, second voting period, end of the first term with the second election decided) replayed on the real "
+    "committee; rollbacks of the sweep reach into those blocks",
+    "quick tier: behaviours of the exhaustive jobs are a seeded sample stratified by the kinds of the last block / of the "
+    "blocks a final rollback undoes / the named deviation (all behaviours for the unregister-and-vote job around the end of "
+    "the voting period)",
 ]
